@@ -4,6 +4,9 @@
           22 = clause Skip fails on the observation       (theorem C20_skip)
           23 = clause OneRetry fails on the observation   (theorem C20_one_retry)
           24 = clause Raises fails on the observation     (theorem C20_raises)
+          25 = clause SoundFinal fails on the observation (theorem C20_sound_final): returned normally,
+               the checksum answer the server holds ready after the last data GET publishes a checksum,
+               the file does not have it
           3  = input outside the stated regime (harness bug)
    File contents and digests are tokens; the digest of body token b is token b (the harness asserts
    that the byte strings it serves have pairwise distinct MD5s); -1 in an observation = "bytes that
@@ -53,7 +56,8 @@ Definition check (c : case) : list Z :=
       flag 21 (sound_b tok_md5 w ob) ++
       flag 22 (skip_b tok_md5 w ob) ++
       flag 23 (retry_b tok_md5 w ob) ++
-      flag 24 (raises_b tok_md5 w ob)
+      flag 24 (raises_b tok_md5 w ob) ++
+      flag 25 (sound_final_b tok_md5 w ob)
     | ObsCrash =>
       (* a crash / time-out of the worker: differs from the model; it defeats Skip when a valid file
          should simply have been returned *)
